@@ -151,6 +151,14 @@ def run(tier):
     limits = list(range(1, 255)) if thorough else [1, 2, 3, 7, 8, 15, 16, 17, 31, 64, 127, 128, 200, 253, 254]
     for L in limits:
         extra.append(directed(L, "map8"))
+    # the limit equal to the maximum of the token type: the cursor wraps to 0 after the top token
+    # (never exhausted: the scan of a full table with this limit does not terminate in the code)
+    for mode, top in (("map8", 255), ("map16", 65535)):
+        if mode == "map16" and not thorough:
+            continue
+        h = ["reset %d %s" % (top, mode)] + ["get"] * (top - 1) + ["remove 1", "remove 7", "get", "get", "lookup 1",
+                                                                   "get", "lookup 7", "remove %d" % top, "get", "lookup %d" % top]
+        extra.append(h)
     for mode, lim in (("map16", 300), ("map32", 70000), ("map64", 5000), ("mapi32", 100), ("map8", 254),
                       ("map16", 65534)):
         for _ in range(8 if thorough else 2):
